@@ -270,6 +270,9 @@ func (x *opFunction) Do(currentData, originalData any) (dataToUse any, err error
 			}
 		case []float64:
 			for _, asFloat := range resType {
+				if math.IsNaN(asFloat) || math.IsInf(asFloat, 0) {
+					return nil, fmt.Errorf("unhandled param path value: %v", asFloat)
+				}
 				rtParams = append(rtParams, &FP_Number{decimal.NewFromFloat(asFloat)})
 			}
 		case []int:
@@ -280,6 +283,9 @@ func (x *opFunction) Do(currentData, originalData any) (dataToUse any, err error
 			for _, pv := range resType {
 				switch pvType := pv.(type) {
 				case float64:
+					if math.IsNaN(pvType) || math.IsInf(pvType, 0) {
+						return nil, fmt.Errorf("unhandled param path value: %v", pvType)
+					}
 					rtParams = append(rtParams, &FP_Number{decimal.NewFromFloat(pvType)})
 				case int:
 					rtParams = append(rtParams, &FP_Number{decimal.NewFromInt(int64(pvType))})
